@@ -8,6 +8,7 @@ convolution_point}, esf.conv.convolution (empty kernel / empty domain branches).
 from __future__ import annotations
 
 import importlib
+import math
 
 from pvc.core import ob_eval, guarded, Ob, PROVED, REFUTED
 from pvc.stubs import rebind, np_shim_for
@@ -211,6 +212,103 @@ def sec_cc(rep):
     rep.check("C09/cc/zero-when-slow-rescaling-variable-exceeds-one", case_zero, sy, pre + [sy.x * (1 + sy.m2c / sy.Q2) >= 1 - eps], kind="lemma")
 
 
+def sec_generator_masses(rep):
+    """Every kernel a generator builds for the heavy flavour ihq carries the mass of *that* quark
+    (its threshold / slow-rescaling variable / log is the one of m_ihq): m2hq (NC), labda =
+    1/(1+m2/Q2) (CC), L = ln(Q2/m2) (asymptotic), m1sq/m2sq (intrinsic)."""
+    from yadism.coefficient_functions import heavy, intrinsic, asy
+    from . import sites as S
+
+    rep.under_contract(heavy.kernels.generate, heavy.kernels.generate_missing, intrinsic.kernels.generate, asy.kernels.generate_missing_asy, asy.kernels.generate_heavy_asy, asy.kernels.generate_intrinsic_asy)
+    sy = H.Sy(extra="z")
+    pre = [sy.x > 0, sy.x < 1, sy.Q2 > 0] + sy.mass_pre()
+    masses = {4: "m2c", 5: "m2b", 6: "m2t"}
+    gens = {
+        "heavy.generate": lambda esf, nf, ihq: heavy.kernels.generate(esf, nf, ihq),
+        "heavy.generate_missing": lambda esf, nf, ihq: heavy.kernels.generate_missing(esf, nf, ihq),
+        "intrinsic.generate": lambda esf, nf, ihq: intrinsic.kernels.generate(esf, ihq),
+        "asy.generate_missing_asy": lambda esf, nf, ihq: asy.kernels.generate_missing_asy(esf, nf, ihq, 2),
+        "asy.generate_heavy_asy": lambda esf, nf, ihq: asy.kernels.generate_heavy_asy(esf, nf, 2, ihq),
+        "asy.generate_intrinsic_asy": lambda esf, nf, ihq: asy.kernels.generate_intrinsic_asy(esf, nf, 1, ihq),
+    }
+    for gname, gen in gens.items():
+        for process in ("NC", "CC"):
+            for kind in ("F2", "FL", "F3"):
+                for nf in (3, 4, 5):
+                    for ihq in range(nf + 1, 7):
+                        rep.cases += 1
+
+                        def case(sy, gen=gen, process=process, kind=kind, nf=nf, ihq=ihq):
+                            log = math.log if sy.is_numeric else (lambda v: R.lift(v).log())
+                            cfg = H.make_configs(sy, process=process, projectile="neutrino" if process == "CC" else "electron", scheme="FFNS", nf_ff=nf, pto=2, pto_evol=2)
+                            cfg.managers["coupling_constants"] = H.WStub(sy, process, 12 if process == "CC" else 11)
+                            esf = H.FakeESF(sy.x, sy.Q2, H.obs_name(kind, "total"), cfg)
+                            m2 = getattr(sy, masses[ihq])
+                            with rebind(*S.stub_binds(sy)):
+                                ks = list(gen(esf, nf, ihq))
+                            out = []
+                            for i, k in enumerate(ks):
+                                d = k.coeff.__dict__
+                                nm = f"kernel{i}:{type(k.coeff).__name__}"
+                                if "m2hq" in d:
+                                    out.append((f"{nm}/m2hq", d["m2hq"], m2))
+                                if "labda" in d:
+                                    out.append((f"{nm}/labda = 1/(1+m2/Q2)", d["labda"], 1 / (1 + m2 / sy.Q2)))
+                                if "L" in d:
+                                    out.append((f"{nm}/L = ln(Q2/m2)", d["L"], log(sy.Q2 / m2)))
+                                if "m1sq" in d:
+                                    out.append((f"{nm}/m1sq", d["m1sq"], m2))
+                                if "m2sq" in d:
+                                    out.append((f"{nm}/m2sq", d["m2sq"], m2))
+                            return out or [("no kernels for this configuration", True, True)]
+
+                        rep.check(f"C09/generator-mass/{gname}/{process}/{kind}/nf={nf}/ihq={ihq}", case, sy, pre, max_paths=16, exc_ok=lambda p: isinstance(p.exc, NotImplementedError))
+
+
+def sec_cc_argument_only(rep):
+    """The parts of a CC kernel are functions of their argument (the slow-rescaling point the
+    convolution hands in), not of the Bjorken x of the owning ESF: d(part(z))/d(ESF.x) == 0."""
+    from pvc.diff import d as dd
+    from . import sites as S
+
+    sy = H.Sy(extra="z")
+    nc, cc, errors = heavy_nc_classes()
+    pre = [sy.x > 0, sy.x < 1, sy.z > 0, sy.z < 1, sy.Q2 > 0, sy.m2c > 0]
+    for cls in sorted(cc, key=lambda c: (c.__module__, c.__name__)):
+        kind = KINDMAP[cls.__module__.split(".")[-1].split("_")[0]]
+        for order in (0, 1):
+            rep.cases += 1
+
+            def case(sy, cls=cls, kind=kind, order=order):
+                site = S.Site("heavy", cls.__module__.split(".")[-1], cls, order, 3)
+                with rebind(*S.stub_binds(sy)):
+                    o = site.construct(sy)
+                    rsl = o[order]()
+                    if rsl is None:
+                        return [("no kernel at this order", True, True)]
+                    out = []
+                    for part in ("reg", "sing", "loc"):
+                        f = getattr(rsl, part)
+                        if f is None:
+                            continue
+                        if sy.is_numeric:
+                            import numpy as np
+
+                            a = np.array(rsl.args[part], dtype=float)
+                            v1 = f(sy.z, a)
+                            sy2 = sy.numeric(dict(sy.env, x=sy.x * 0.83))
+                            o2 = S.Site("heavy", cls.__module__.split(".")[-1], cls, order, 3).construct(sy2)
+                            r2 = o2[order]()
+                            v2 = getattr(r2, part)(sy.z, np.array(r2.args[part], dtype=float))
+                            out.append((f"{part}(z) independent of ESF.x", v1 - v2, 0))
+                        else:
+                            v = f(sy.z, rsl.args[part])
+                            out.append((f"{part}(z) independent of ESF.x", dd(R.lift(v), sy.x), 0))
+                    return out
+
+            rep.check(f"C09/cc/parts-depend-on-their-argument-only/{cls.__module__.split('.')[-1]}.{cls.__name__}/order={order}", case, sy, pre, max_paths=16)
+
+
 def sec_selfcheck(rep, seed):
     from pvc.core import Report
     from canaries import c09 as canary
@@ -239,7 +337,7 @@ def run(rep, tier, seed, only=None):
         "conv.convolution is exercised with an eko basis-function stub (A-eko) and scipy.integrate.quad must not be reached on the zero paths",
     )
     rep.stub("LeProHQ.* -> uninterpreted recording stub", "heavy.n3lo.interpolator -> uninterpreted recording stub", "scipy.integrate.quad -> must-not-be-called stub", "eko BasisFunction -> BasisStub")
-    for nm, f in (("predicate", sec_threshold_predicate), ("decorator", sec_decorator), ("closures", sec_closures), ("cc", sec_cc)):
+    for nm, f in (("predicate", sec_threshold_predicate), ("decorator", sec_decorator), ("closures", sec_closures), ("cc", sec_cc), ("masses", sec_generator_masses), ("ccarg", sec_cc_argument_only)):
         if only and only not in nm:
             continue
         rep.add(guarded(f"C09/{nm}", lambda f=f: (f(rep), [])[1]))
